@@ -252,9 +252,11 @@ EmptyInfoCt(f) == CASE f = "absent" -> "text/plain" [] f = "text" -> "text/plain
 WmsFiHandle(p, v) ==
   LET h == WmsH(p, v, p.format) IN
   IF p.layers \in Text \cup {"empty"} THEN {Err(h, "LayerNotDefined", Ech(p, "layers"), 0)}
+  \* validate_layers looks at LAYERS and then at QUERY_LAYERS (as found it skipped the latter - `hasattr(request, ...)`
+  \* instead of `request.params` - and self.layers[name] raised KeyError further down: 500 internal error)
+  ELSE IF p.query_layers \in Text THEN {Err(h, "LayerNotDefined", Ech(p, "query_layers"), 0)}
   ELSE IF p.srs \in Text \cup {"unconfigured"} THEN {Err(h, IF v = "130" THEN "InvalidCRS" ELSE "InvalidSRS", Ech(p, "srs"), 0)}
   ELSE IF SizeBad(p) \/ p.x = "malformed" \/ p.y = "malformed" THEN {Raise}
-  ELSE IF p.query_layers \in Text THEN {Raise}                          \* self.layers[name]: KeyError
   ELSE LET f == p.info_format
            full == Ok(200, InfoCt(f, v), InfoKind(f), InfoSkel(f), "none", {})
            empty == Ok(200, EmptyInfoCt(f), "empty", "none", "none", If(f \in Text, {<<"info_format", f, "header", "raw">>}))
